@@ -39,15 +39,22 @@ theorem at_start_eq (h : HState) (start : Int) :
 theorem forever_stopped_eq (a : TopAtoms) : Extracted.marksForeverStopped a = marksForeverStopped a := rfl
 
 /-- `_runner`'s `finally`: an ended task whose stopper carries no reason is recorded as stopped for ever — a one-shot
-    timer that returned, and a task ended by an exception alike (finding C10-F4) -/
+    timer that returned, and a task ended by an exception alike -/
 theorem runner_marks_eq (a : RunnerAtoms) : Extracted.runnerMarksForever a = runnerMarksForever a := rfl
 
-/-- `_detect_causes`: when an event resets idling (`reset=` of the spawning cause; `seen` defaults to `new`) -/
-theorem reset_cond_eq (a : ResetAtoms) : Extracted.resetCond a = resetCond a := rfl
+/-- `_timer`: the post-run `patch_and_check` is inside `try: … except asyncio.CancelledError: raise / except Exception:
+    remaining_patch = patch` — an API error keeps the undelivered patch and does not leave the loop (b8b3089) -/
+theorem on_patch_error_eq : Extracted.onPatchError = onPatchError := rfl
+
+/-- `_detect_causes`: when an event resets idling (`reset=` of the spawning cause: `essentially_changed`; without the
+    former defaulting of `seen`, `bool(diffs.diff(seen, new))` is translated as `seen is None or the essences differ`) -/
+theorem reset_cond_eq (a : ResetAtoms) : Extracted.resetCond a = resetCond a := by
+  cases a with
+  | mk s d1 d2 => cases s <;> simp [Extracted.resetCond, resetCond]
 
 theorem resets_idle_eq (lastHandled seen : Option Nat) (new : Nat) :
-    resetsIdle lastHandled seen new =
-      Extracted.resetCond { diffLastHandled := lastHandled != some new, diffSeen := seen.getD new != new } := rfl
+    resetsIdle lastHandled seen new = Extracted.resetCond (resetAtoms lastHandled seen new) := by
+  rw [reset_cond_eq]; rfl
 
 /-- `idle_reset_time` is written at exactly these two places, each under the reset condition -/
 theorem stamp_sites_eq : Extracted.stampSites = stampSites := by decide
